@@ -71,6 +71,14 @@ def run_property(prop: str, tier: str, seed: int, only_rule: str | None = None) 
                               found=f"ValueError at {e.where} whenever the selection is empty", explanation=f"{qual or file}: one element is taken (.item(), [0], an unpacking) from a result that is empty for part of the valid "
                               f"inputs - the positions where the temperature grid is zero (none when T_MIN > 0), the residuals of a least-squares system that is not over-determined - "
                               f"and the call raises there: the calculation cannot complete", instance=f"{qual or file}: raises on an empty selection")
+            elif exc == "InputAssumption":
+                # wrong for part of the valid input domain: the code relies on something about its input that the input need not satisfy
+                file, _, line = (e.where or "").partition(":")
+                line = int(line) if line.isdigit() else 0
+                qual = function_at(model, file, line)
+                ctx.violation("input-assumption", Where(file or "cij", qual, line), expected=getattr(e, "expected", "no assumption about the input beyond its documented form"),
+                              found=f"assumption at {e.where}", explanation=f"{qual or file}: {getattr(e, 'detail', 'an assumption about the input that valid inputs need not satisfy')}",
+                              instance=f"{qual or file}: input assumption")
             elif exc == "IntegerDtype":
                 # wrong (not: raising) for part of the valid input domain: an operation that keeps an integer element type is applied to a grid that is integer-typed for whole-number settings
                 file, _, line = (e.where or "").partition(":")
